@@ -675,8 +675,9 @@ class NetCDF4(FileHandler):
         # xarray dataset.
 
         with netCDF4.Dataset(file_info.path, "r") as root:
-            # xarray decode_cf scales, don't do it twice!
-            root.set_auto_scale(False)
+            # xarray decode_cf scales and masks, don't do it twice! (Masked
+            # arrays would also turn all integers into floats.)
+            root.set_auto_maskandscale(False)
             dataset = xr.Dataset()
             self._load_group(dataset, None, root, fields)
 
